@@ -169,6 +169,23 @@ func workerMain(args []string) int {
 			wo.Probes["point_runs"]++
 			wo.Probes["points_reached_total"] += ex.pointN
 		}
+		if pointsAvailable && os.Getenv("VERIF_POINTS") != "" && v == nil && tr.Mode == "race" && len(ex.racePoints) > 0 {
+			pr := NewRNG(mix2(mix2(*seed, hashStr("points/"+*prop)), uint64(i)))
+			k := pr.Range(2, 12)
+			for j := 0; j < k; j++ {
+				g := pr.Range(1, len(ex.racePoints))
+				if n := ex.racePoints[g-1]; n > 0 {
+					tr.Points = append(tr.Points, PointAct{G: g, Nth: pr.Intn(n), Act: "yield"})
+				}
+			}
+			if jf != nil {
+				pj, _ := json.Marshal(tr.Points)
+				fmt.Fprintf(jf, "POINTS %d %s\n", i, pj)
+			}
+			ex = newExec(tr, kn)
+			v = ex.Run()
+			wo.Probes["point_runs"]++
+		}
 		rec := runRecord{Run: i, TraceHash: tr.Hash(), Transcript: ex.tx, NonTrivial: ex.st.Mutations > 0, Steps: ex.st.Steps, Violation: v, Points: tr.Points}
 		wo.Records = append(wo.Records, rec)
 		addMap(wo.Ops, ex.st.Ops)
